@@ -16,7 +16,7 @@ RULE = (
     "Hypothesis generates small pipelines (2..4 fault-probe models in 1..3 groups, some disabled), 1..3 readout steps, "
     "1..3 runs (temperature sweep), an exception class from {ValueError, KeyError, RuntimeError, ZeroDivisionError, OSError, "
     "TypeError, IndexError, AssertionError, StopIteration, a custom Exception subclass, a custom class with a two-argument "
-    "constructor} and a mode (exposure, exposure with debug, sequential observation, dask observation with the synchronous "
+    "constructor, one whose constructor arguments are not its args, a FileNotFoundError carrying errno / message / file name} and a mode (exposure, exposure with debug, sequential observation, dask observation with the synchronous "
     "and the threaded scheduler), with or without a working directory configured on the running mode; for each such configuration the fault site (run, step, enabled model position) is "
     "ENUMERATED EXHAUSTIVELY and each site is one execution. Oracle: the call (or compute) raises; the chain text carries "
     "the unique token, the injected type, group and model name and - sequentially - every parameter key and value; no result "
@@ -31,7 +31,7 @@ SHARDS = {"quick": 8, "thorough": 16}
 EXC = ("ValueError", "KeyError", "RuntimeError", "ZeroDivisionError", "OSError", "TypeError", "IndexError", "AssertionError",
        "StopIteration", "FloatingPointError", "OverflowError", "ArithmeticError", "LookupError", "AttributeError", "NotImplementedError",
        "MemoryError", "RecursionError", "FileNotFoundError", "TimeoutError", "UnicodeError", "BufferError", "EOFError", "ImportError",
-       "NameError", "ReferenceError", "ProbeError", "TwoArgError")
+       "NameError", "ReferenceError", "ProbeError", "TwoArgError", "FormattedArgsError", "FileNotFoundWithName")
 # '*_yamlrun*': the configuration is written to a YAML file and started through pyxel.run(<file>) (what the command line does), without / with an
 # 'outputs' section
 MODES = ("exposure", "exposure_debug", "obs_seq", "obs_seq", "obs_dask_sync", "obs_dask_threads",
@@ -159,7 +159,7 @@ def run_site(cfg, site, rec, tmp):
         return
     text = exc_chain_text(raised)
     rec.check(token in text, "original_message_lost", f"{where}: token not in what the caller sees: {text[:300]}")
-    want_type = {"ProbeError": "ProbeError", "TwoArgError": "TwoArgError"}.get(cfg["exc"], cfg["exc"])
+    want_type = {"FileNotFoundWithName": "FileNotFoundError"}.get(cfg["exc"], cfg["exc"])
     rec.check(type(raised).__name__ == want_type, "original_type_lost", f"{where}: raised {type(raised).__name__} at {stage}, injected {want_type}")
     rec.check(failing["group"] in text and failing["name"] in text, "group_or_model_not_named", f"{where}: {text[:300]}")
     if mode == "obs_seq" and "legacy" not in stage:
